@@ -191,3 +191,72 @@ def concatInputs (st : St) (first : Arr) (others : List (Arr × (Rat → Rat) ×
   alloc q.1 ((first :: q.2).flatMap (readAll q.1))
 
 end Store
+
+namespace Store
+
+/-! ### model objects (BQM / QM / CQM) at the granularity the Python / Cython layer exposes
+
+A model object is `(native handle, Variables object, cached views)`: `.data` is the Cython object that owns
+the C++ model, `.data.variables` its `Variables`, `._spin` / `._binary` (BQM) or the objective / constraint
+views (CQM) are Python objects built *around the parent's handle*.  The heap holds the contents of native
+models and of `Variables` objects abstractly. -/
+
+structure MSt where
+  native : Nat → List Rat          -- what a native model holds (its coefficients, abstractly)
+  vars : Nat → List Nat            -- what a Variables object holds (its labels, abstractly)
+  next : Nat
+
+structure Mdl where
+  handle : Nat
+  variables : Nat
+deriving DecidableEq
+
+/-- in-place edits: through a handle, through a Variables object -/
+def setNative (st : MSt) (h : Nat) (c : List Rat) : MSt := { st with native := fun k => if k = h then c else st.native k }
+def setVars (st : MSt) (v : Nat) (c : List Nat) : MSt := { st with vars := fun k => if k = v then c else st.vars k }
+
+/-- `new = type(self)(vartype); new.cppbqm[0] = self.cppbqm[0]; new.variables = self.variables.copy()` followed by
+    whatever the method then does *to the new object* (`f` on the coefficients, `g` on the labels) -/
+def freshFrom (st : MSt) (o : Mdl) (f : List Rat → List Rat) (g : List Nat → List Nat) : MSt × Mdl :=
+  ({ native := fun k => if k = st.next then f (st.native o.handle) else st.native k,
+     vars := fun k => if k = st.next + 1 then g (st.vars o.variables) else st.vars k,
+     next := st.next + 2 },
+   { handle := st.next, variables := st.next + 1 })
+
+/-- the calls of the property's list, each as coded in the repaired tree -/
+inductive MCall where
+  | copy | deepcopy | pickle                    -- `__copy__` / `__deepcopy__` / `__reduce__`
+  | construct                                   -- `BQM(bqm)`, `type(m)(m)`, `DictBQM(bqm)`, `as_bqm(copy=True)`
+  | fromModel                                   -- `QM.from_bqm`, `CQM.from_bqm`, `CQM.from_quadratic_model`
+  | relabelCopy | relabelIntsCopy | changeVartypeCopy | fixVariablesCopy    -- `self.copy().<method>(inplace=True)`
+  | spinToBinaryCopy (hasSpin : Bool)           -- `QM.spin_to_binary(inplace=False)`: copies whether or not there is a SPIN variable
+  | arith                                       -- `m + x`, `m - x`, `m * x`, `m / x`, `x + m`, … : `new = self.copy(); new += x`
+  | radd (zero : Bool)                          -- `0 + m` (what `sum()` does): `self + other`, also for zero
+  | neg | pos                                   -- `-m`: copy and scale; `+m`: copy
+  | view                                        -- `.spin` / `.binary`, `cqm.objective`, `cqm.constraints[l].lhs`: documented aliases
+
+def MCall.run (st : MSt) (o : Mdl) (f : List Rat → List Rat) (g : List Nat → List Nat) : MCall → MSt × Mdl
+  | .view => (st, o)                            -- a Python object around the parent's own handle
+  | _ => freshFrom st o f g
+
+/-! #### adding a model to a CQM -/
+
+/-- `cyCQM.add_constraint_from_model(model, …, copy)`: with `copy` the constraint gets a copy of the model's data;
+    without, the data are *moved* into the CQM and `model.clear()` empties the caller's model (documented) -/
+def addConstraintFromModel (st : MSt) (src : Mdl) (copy : Bool) : MSt × Nat :=
+  let st1 : MSt := { st with native := fun k => if k = st.next then st.native src.handle else st.native k, next := st.next + 1 }
+  (if copy then st1 else setNative st1 src.handle [], st.next)
+
+/-- `add_constraint(model, sense, rhs, label, copy=…)` forwards `copy` by keyword -/
+def addConstraint (st : MSt) (src : Mdl) (copy : Bool) : MSt × Nat := addConstraintFromModel st src copy
+
+/-- `add_discrete_from_model(qm, label, copy, check_overlaps)`: the overlap check reads, it never writes -/
+def addDiscreteFromModel (st : MSt) (src : Mdl) (copy : Bool) (_checkOverlaps : Bool) : MSt × Nat :=
+  addConstraintFromModel st src copy
+
+/-- `add_discrete_from_comparison(comp, label, copy, check_overlaps)` as coded:
+    `self.add_discrete_from_model(comp.lhs, label=label, copy=copy, check_overlaps=check_overlaps)` -/
+def addDiscreteFromComparison (st : MSt) (lhs : Mdl) (copy checkOverlaps : Bool) : MSt × Nat :=
+  addDiscreteFromModel st lhs copy checkOverlaps
+
+end Store
